@@ -86,7 +86,9 @@ def check(ctx):
         raise AnalysisError("poll direction generator poll_mads_2n not found")
     gcalls = [c for c, tg in prog.calls_in(poll) if gen in tg]
     if not gcalls:
-        raise AnalysisError("the poll step no longer calls the direction generator")
+        ctx.rule("R1", "the generator returns [M; -M]", floor=1)
+        ctx.missing(poll, "call of the direction generator poll_mads_2n in the poll step")
+        return
     gcall = gcalls[0]
 
     # ------------------------------------------------------------------ R1
